@@ -531,6 +531,45 @@ class SymEngine:
         t_start = time.perf_counter()
         stack = [[]]
         summary = {"unexpected": [], "aborted": []}
+        unstub = self._install_hash_stub()
+        try:
+            return self._explore_loop(func, kwargs, validate, stack, summary, t_start)
+        finally:
+            unstub()
+
+    def _install_hash_stub(self):
+        """const/mixed hash modes: containers hash over their key set only.  A coarser but
+        valid hash (equal containers have equal key sets), so dict/set semantics and the
+        hash shortcut in UnitsContainer.__eq__ are preserved while exponents stay symbolic.
+        Without it an int exponent and an equal symbolic exponent would hash differently."""
+        if self.hash_mode == "realize":
+            return lambda: None
+        from pint.util import ParserHelper, UnitsContainer
+
+        def clear_lru():
+            # memoised ParserHelpers carry a cached _hash of whichever function was active
+            ParserHelper.from_string.__func__.cache_clear()
+
+        clear_lru()
+
+        orig = UnitsContainer.__hash__
+
+        def keys_hash(uc):
+            if uc._hash is None:
+                uc._hash = hash(frozenset(uc._d))
+            return uc._hash
+
+        UnitsContainer.__hash__ = keys_hash
+        self.stubs_used = getattr(self, "stubs_used", []) + ["UnitsContainer.__hash__ -> hash of the key set (hash_mode=%s)" % self.hash_mode]
+
+        def undo():
+            UnitsContainer.__hash__ = orig
+            clear_lru()
+
+        return undo
+
+    def _explore_loop(self, func, kwargs, validate, stack, summary, t_start):
+        global CURRENT
         while stack:
             if self.stats.paths >= self.max_paths or time.perf_counter() - t_start > self.max_wall_s:
                 self.inconclusive.append({"label": "budget", "why": f"path/wall budget exhausted with {len(stack)} prefixes pending"})
@@ -611,7 +650,7 @@ class SymEngine:
                     stack.append(head + [[kind, data, not outcome]])
             # record the path for differential validation
             rec = None
-            if validate is not None and status in ("ok", "stopped", "exception") and not self.used_stub:
+            if validate is not None and status in ("ok", "exception") and not self.used_stub:
                 if validate(self.stats.paths):
                     try:
                         CURRENT = self
